@@ -28,8 +28,9 @@ def sh(cmd, **kw):
 
 def main():
     prop, which = sys.argv[1], sys.argv[2]
-    src = "/tmp/seed-%s/seed/%s" % (prop, which)
-    name = "%s-%s" % (prop, which)
+    rnd = sys.argv[3] if len(sys.argv) > 3 else ""  # "" = first round (/tmp/seed-Cxx), "2" = second round (/tmp/seed2-Cxx) ...
+    src = "/tmp/seed%s-%s/seed/%s" % (rnd, prop, which)
+    name = "%s-%s%s" % (prop, which, rnd)
     dst = os.path.join(VERIF, "seeded", name)
     if not os.path.exists(os.path.join(src, "patch.diff")):
         print("no patch at", src)
